@@ -37,7 +37,7 @@ func runC08(p *core.Prog, r *core.Report) {
 // the mark phase tries to load an entry it has stored the entry's digest in the mark set (a blob-typed
 // entry, or a manifest the loader refuses, is still content the index refers to).
 func c08R8(p *core.Prog, r *core.Report, rule string) {
-	r.Rule(rule, "listed means kept: in the mark phase every load of an index entry is dominated by the store of that entry's digest into the mark set (the mark does not depend on the load succeeding)", 1)
+	r.Rule(rule, "listed means kept: in the mark phase every load of an index entry is accompanied by the store of that entry's digest into the mark set, before the load or after it but independent of its error (the mark does not depend on the load succeeding)", 1)
 	walkers, first, _ := gcMarkWalkers(p)
 	if first == nil {
 		r.MissingAnchor(rule, "mark phase of the layout GC")
@@ -148,6 +148,22 @@ func c08R8(p *core.Prog, r *core.Report, rule string) {
 			for _, mu := range marks {
 				if core.DominatesInstr(mu, call) {
 					marked = true
+					continue
+				}
+				// marked after the load, whatever the load answered
+				if core.DominatesInstr(call, mu) {
+					dep := false
+					for _, ifi := range core.ControlDeps(mu) {
+						cnd, _ := core.StripNot(ifi.Cond, true)
+						if x, _, isNil := errCmpNil(cnd); isNil {
+							for _, oc := range originCalls(x) {
+								dep = dep || oc == call
+							}
+						}
+					}
+					if !dep {
+						marked = true
+					}
 				}
 			}
 			r.Check(marked, rule, p.FuncName(f), lab.next("index entry loaded by "+canon(g)), p.Pos(call.Pos()),
